@@ -400,9 +400,67 @@ def _check_gen_one(sql, source, target, ti, tree):
     return ("nontrivial" if nontrivial else "clean", 4, viol, 0)
 
 
+def check_reuse(item):
+    """item = ("r", source, target): the same relation call by call on ONE long-lived Generator per level -- the level
+    relation must not depend on what an earlier generate() call on the same object left behind."""
+    _, source, target = item
+    _arm_logging()
+    from sqlglot.dialects.dialect import Dialect
+
+    trees = []
+    for sql in corpus.STATEMENTS:
+        st, ts = guarded(lambda: sqlglot.parse(sql, read=source or None), 1 << 62, 1 << 62)
+        if st == "ok":
+            trees += [(sql, t) for t in ts if t is not None]
+    gens = {lv: Dialect.get_or_raise(target or None).generator(unsupported_level=ErrorLevel[lv]) for lv in c05.LEVELS}
+    out = []
+    for step, (sql, tree) in enumerate(trees):
+        viol = []
+        inp = {"kind": "gen-reuse", "dialect": source, "target": target, "step": step, "sql": sql}
+
+        def V(clause, what):
+            viol.append((f"c14:gen-reuse:{clause}", what, dict(inp)))
+
+        runs = {}
+        skip = False
+        for lv in c05.LEVELS:
+            CAP.clear()
+            st, val = guarded(lambda: gens[lv].generate(tree.copy()), 1 << 62, 1 << 62)
+            recs = list(CAP.gen_records)
+            if st == "hang" or (st == "exc" and not isinstance(val, E.UnsupportedError)):
+                skip = True
+                break
+            runs[lv] = (st, val, recs)
+        if skip:
+            # an aborted call may legitimately leave state behind only if a fresh object would too: restart all four
+            gens = {lv: Dialect.get_or_raise(target or None).generator(unsupported_level=ErrorLevel[lv]) for lv in c05.LEVELS}
+            out.append(("skipped", 4, [], 0))
+            continue
+        ig, wa, ra, im = (runs[k] for k in c05.LEVELS)
+        texts = {lv: runs[lv][1] for lv in ("IGNORE", "WARN", "RAISE") if runs[lv][0] == "ok"}
+        if len(set(texts.values())) > 1:
+            V("same-text", f"texts differ between levels {sorted(texts)} on a reused generator")
+        if ig[0] == "exc":
+            V("ignore-raises", f"IGNORE raised on a reused generator: {str(ig[1])[:100]}")
+        if wa[0] == "exc":
+            V("warn-raises", f"WARN raised on a reused generator: {str(wa[1])[:100]}")
+        if wa[0] == "ok":
+            own = len(wa[2]) - len(ig[2])
+            raised = ra[0] == "exc"
+            if raised != (own >= 1):
+                V("raise-iff-warn", f"step {step}: WARN logged {len(wa[2])} record(s) for this call but RAISE {'raised ' + str(ra[1])[:60] if raised else 'returned'}")
+        if (im[0] == "exc") != (ra[0] == "exc"):
+            V("immediate-iff-raise", f"step {step}: IMMEDIATE {'raised' if im[0] == 'exc' else 'returned'}, RAISE {'raised' if ra[0] == 'exc' else 'returned'}")
+        nontrivial = len(wa[2]) > 0 or ra[0] == "exc" or im[0] == "exc"
+        out.append(("nontrivial" if nontrivial else "clean", 4, viol, 0))
+    return out
+
+
 def check_item(item):
     if item[0] == "p":
         return [check_parse(item)]
+    if item[0] == "r":
+        return check_reuse(item)
     return check_gen(item)
 
 
@@ -484,7 +542,9 @@ def items_for(tier):
     g = [("g", s, a_, tuple(gtgt)) for s in corpus.STATEMENTS for a_ in gsrc]
     stats["gen_statement_x_source"] = len(g)
     stats["gen_targets"] = len(gtgt)
-    items = a + b + sp + sc + g
+    r = [("r", a_, b_) for a_ in (["", "presto", "duckdb"] if tier == "quick" else gsrc) for b_ in gtgt]
+    stats["gen_reused_generator_source_x_target"] = len(r)
+    items = a + b + sp + sc + g + r
     return items, stats
 
 
